@@ -174,7 +174,7 @@ class DirectCollocation(SamplingMethod):
             subgrid+=list((i+np.array(self.tau))/self.M)
 
         v_sampled_store = []
-        for e in self.signals.values():
+        for e in self.system_signals():
             v_sampled = ca.horzsplit(e.sample(subgrid=subgrid,include_edges=False))
             v_sampled_store.append(v_sampled)
         signals_sampled = []
